@@ -4,8 +4,10 @@
 Require Import PG.Base.Bytes PG.Base.GoSlice PG.Base.Value.
 Require Import PG.C02.Model PG.C02.Spec PG.C02.Pure PG.C02.SpecProofs PG.C02.Refine.
 Require Import PG.C03.Model PG.C03.Refine.
-Require Import PG.C10.Locality PG.C10.Cost.
+Require Import PG.C03.Spec PG.C03.SpecProofs PG.C03.Main.
+Require Import PG.C10.Locality PG.C10.Cost PG.C10.ValueLocal.
 Require PG.Props.C02 PG.Props.C03 PG.Props.C04 PG.Props.C05 PG.Props.C06 PG.Props.C07 PG.Props.C13 PG.Props.C15 PG.Props.C16 PG.Props.C19 PG.Props.C20.
+Require PG.Props.C01 PG.Props.C08 PG.Props.C14 PG.Props.C17 PG.Props.C18.
 
 (* ---- no panic: for ALL byte strings, ALL capacity tails, ALL schemas ---- *)
 Theorem C10_no_panic_ReadTuples : forall s v, ReadTuples s v <> Panic.
@@ -63,6 +65,43 @@ Print Assumptions C10_total_ParseJSONB.
 Print Assumptions C10_no_panic_decodeArray.
 Print Assumptions C10_no_panic_blocks_checksums.
 
+
+(* ---- entry points of the properties integrated later: catalogs/dump, TOAST, pg_authid, WAL, index files ---- *)
+(* DumpDataDir / DumpDatabaseFromFiles: every file system (any bytes in any file, missing files), every option set *)
+Theorem C10_no_panic_DumpDataDir : same_as PG.Props.C01.C01_no_panic.
+Proof. exact PG.Props.C01.C01_no_panic. Qed.
+Theorem C10_no_panic_DumpDatabaseFromFiles : same_as PG.Props.C01.C01_files_no_panic.
+Proof. exact PG.Props.C01.C01_files_no_panic. Qed.
+(* ParseTOASTPointer, IsTOASTPointer, ReassembleTOAST (any chunk list, any pointer), ReadValue, decompressors *)
+Theorem C10_no_panic_TOAST : same_as PG.Props.C08.C08_no_panic.
+Proof. exact PG.Props.C08.C08_no_panic. Qed.
+Theorem C10_no_panic_ReadTOASTTable : same_as PG.Props.C08.C08_table_no_panic.
+Proof. exact PG.Props.C08.C08_table_no_panic. Qed.
+(* the decompressors always return (a value or an error), whatever raw size the pointer claims ... *)
+Theorem C10_total_decompressPGLZ : same_as PG.Props.C08.C08_pglz_total.
+Proof. exact PG.Props.C08.C08_pglz_total. Qed.
+Theorem C10_total_decompressLZ4 : same_as PG.Props.C08.C08_lz4_total.
+Proof. exact PG.Props.C08.C08_lz4_total. Qed.
+(* ... and the buffer they allocate up front is bounded by the input, not by the claimed raw size *)
+Theorem C10_alloc_bound_decompress : same_as PG.Props.C08.C08_alloc_bound.
+Proof. exact PG.Props.C08.C08_alloc_bound. Qed.
+Theorem C10_no_panic_ParsePGAuthID : same_as PG.Props.C14.C14_no_panic.
+Proof. exact PG.Props.C14.C14_no_panic. Qed.
+Theorem C10_tail_independent_ParsePGAuthID : same_as PG.Props.C14.C14_tail_independent.
+Proof. exact PG.Props.C14.C14_tail_independent. Qed.
+(* parseBlockRefs, parseXLogRecord, parseWALPage, ParseWALFile: total, the fuel never runs out *)
+Theorem C10_no_panic_WAL : same_as PG.Props.C17.C17_no_panic.
+Proof. exact PG.Props.C17.C17_no_panic. Qed.
+(* ParseIndexFile, detectIndexType, parseIndexPage, the meta and special-space parsers *)
+Theorem C10_no_panic_Index : same_as PG.Props.C18.C18_no_panic.
+Proof. exact PG.Props.C18.C18_no_panic. Qed.
+Print Assumptions C10_no_panic_DumpDataDir.
+Print Assumptions C10_no_panic_TOAST.
+Print Assumptions C10_total_decompressPGLZ.
+Print Assumptions C10_no_panic_ParsePGAuthID.
+Print Assumptions C10_no_panic_WAL.
+Print Assumptions C10_no_panic_Index.
+
 (* termination/fuel: the heap scan's loops are structural on len/8192 and len/4+1 — by construction; the refinement
    theorem shows the fuel never runs out prematurely (the model result equals the total pure function) *)
 Theorem C10_scan_total : forall s v, obs_entries (ReadTuples s v) = Ok (p_file (vis s) v).
@@ -103,3 +142,26 @@ Print Assumptions C10_no_panic_ParseControlFile.
 Print Assumptions C10_no_panic_Sequence.
 Print Assumptions C10_page_local.
 Print Assumptions C10_tuple_local.
+(* ---- value locality: overwriting the payload bytes of ONE stored attribute (any storage form: fixed, short/long/
+   compressed varlena, external pointer body, cstring) by ANY bytes of the same length changes the tuple's data area only
+   inside that payload, leaves the layout of all other attributes intact, and DecodeTuple reports the same value for every
+   other column.  For every schema and every row PostgreSQL's heap_fill_tuple can store (fits_prefix), every decoder. *)
+Theorem C10_value_local : forall DecodeType decode,
+  (forall s oid, DecodeType s oid = Ok (decode (vis s) oid)) ->
+  forall cols ds j d' t t',
+  fits_prefix cols ds -> fits_prefix cols (upd j d' ds) -> nums_ok cols 0 -> cols <> [] ->
+  (j < length ds)%nat -> (j < length cols)%nat -> same_shape (nth j ds DNull) d' ->
+  vis (t_data t) = fill 0 cols ds -> option_map vis (t_bitmap t) = bitmap_for ds ->
+  vis (t_data t') = fill 0 cols (upd j d' ds) -> option_map vis (t_bitmap t') = option_map vis (t_bitmap t) ->
+  (exists x z, vis (t_data t) = x ++ payload (nth j ds DNull) ++ z /\ vis (t_data t') = x ++ payload d' ++ z) /\
+  exists r r', DecodeTuple DecodeType (Some t) cols = Ok (Some r) /\
+               DecodeTuple DecodeType (Some t') cols = Ok (Some r') /\
+               length r = length cols /\ length r' = length cols /\
+               forall k, k <> j -> nth_error r' k = nth_error r k.
+Proof. exact value_damage_local. Qed.
+Print Assumptions C10_value_local.
+(* non-vacuity: (int4, text, int8) row whose text payload "abc" is overwritten by "xyz" *)
+Example C10_value_local_example :
+  fits_prefix vl_cols vl_ds /\ fits_prefix vl_cols (upd 1 (DShort [x78; x79; x7a]) vl_ds) /\ nums_ok vl_cols 0 /\
+  same_shape (nth 1 vl_ds DNull) (DShort [x78; x79; x7a]).
+Proof. exact vl_example. Qed.
